@@ -41,6 +41,12 @@ func (c *connection) onHup(p Poll) error {
 	onRequest := c.onRequestCallback.Load()
 	needCloseByUser := onConnect == nil && onRequest == nil
 	if !needCloseByUser {
+		// Input that arrived while the last handler task was exiting has not been offered to OnRequest yet:
+		// start a task for it, which tears the connection down afterwards (it sees the closed state).
+		if handler, ok := onRequest.(OnRequest); ok && c.inputBuffer.Len() > 0 &&
+			(onConnect == nil || c.getState() != connStateNone) && c.onProcess(nil, handler) {
+			return nil
+		}
 		// already PollDetach when call OnHup
 		c.closeCallback(true, false)
 	}
